@@ -14,6 +14,7 @@ import (
 	"testing"
 
 	"go.lsp.dev/protocol"
+	"go.lsp.dev/uri"
 	"pgregory.net/rapid"
 
 	"github.com/juev/hledger-lsp/verifharness/ev"
@@ -30,6 +31,7 @@ type C09Case struct {
 	EditMode int            `json:"edit_mode"` // 0 none, 1 unsaved: extra transaction appended, 2 unsaved: last entry dropped
 	Extra    *m.Tx          `json:"extra,omitempty"`
 	EditFile *int           `json:"edit_file,omitempty"` // the open file that carries the unsaved edit; nil: the requesting file
+	DirName  string         `json:"dir_name,omitempty"`  // suffix of the directory's name (a blank, non-ASCII letters, a percent sign): URIs are then sent percent-encoded, as clients do
 	LateOpen bool           `json:"late_open,omitempty"` // the other file is opened with the unsaved text (no change notification), after a first request from the requesting file
 }
 
@@ -115,7 +117,7 @@ var c09Seq int
 func c09Check(c *C09Case) (ds []ev.Discrepancy, stats map[string]int) {
 	stats = map[string]int{}
 	c09Seq++
-	root := filepath.Join(scratch(), fmt.Sprintf("c09-%d", c09Seq))
+	root := filepath.Join(scratch(), fmt.Sprintf("c09-%d", c09Seq)+c.DirName)
 	defer os.RemoveAll(root)
 	_ = os.MkdirAll(filepath.Join(root, "sub"), 0o755)
 	n := len(c.WS.Files)
@@ -126,6 +128,9 @@ func c09Check(c *C09Case) (ds []ev.Discrepancy, stats map[string]int) {
 		disk[i] = m.Render(f.Journal)
 		paths[i] = filepath.Join(root, f.Rel)
 		uris[i] = "file://" + paths[i]
+		if c.DirName != "" {
+			uris[i] = string(uri.File(paths[i]))
+		}
 		if err := os.WriteFile(paths[i], []byte(disk[i].Text), 0o644); err != nil {
 			panic(err)
 		}
@@ -133,6 +138,9 @@ func c09Check(c *C09Case) (ds []ev.Discrepancy, stats map[string]int) {
 	opts := lspx.Options{}
 	if c.Root {
 		opts.RootDir = root
+		if c.DirName != "" {
+			opts.RootURI = string(uri.File(root))
+		}
 	}
 	h, err := lspx.New(opts)
 	if err != nil {
@@ -393,9 +401,12 @@ func TestC09(t *testing.T) {
 			c.EditFile = &ef
 			c.LateOpen = ef != c.From && rapid.Bool().Draw(t, "lateopen")
 		}
+		if !disabled("c09.dir-name") && rapid.IntRange(0, 3).Draw(t, "dirname") == 0 {
+			c.DirName = rapid.SampledFrom([]string{" my ledger", "-журнал", "-100%", "-a#b"}).Draw(t, "dirnamev")
+		}
 		ds, st := c09Check(c)
 		nt := st["symbol_in_2_files"] > 0 || c.From != 0
-		cls := []string{fmt.Sprintf("root:%v", c.Root), fmt.Sprintf("from-root-file:%v", c.From == 0), fmt.Sprintf("edit:%d", c.EditMode), fmt.Sprintf("files:%d", len(ws.Files)), fmt.Sprintf("edit-in-other-file:%v", c.EditMode != 0 && c.editFile() != c.From), fmt.Sprintf("other-file-opened-with-unsaved-text:%v", c.LateOpen)}
+		cls := []string{fmt.Sprintf("root:%v", c.Root), fmt.Sprintf("from-root-file:%v", c.From == 0), fmt.Sprintf("edit:%d", c.EditMode), fmt.Sprintf("files:%d", len(ws.Files)), fmt.Sprintf("edit-in-other-file:%v", c.EditMode != 0 && c.editFile() != c.From), fmt.Sprintf("other-file-opened-with-unsaved-text:%v", c.LateOpen), fmt.Sprintf("directory-name-needs-encoding:%v", c.DirName != "")}
 		recC09.Case(nt, mustJSON(c), cls...)
 		for k, v := range st {
 			recC09.Count(k, int64(v))
